@@ -312,6 +312,23 @@ fn main() {
             m2.master.leaves[0].1 = link;
             run_map(&mut sink, "map-sub-detached-relinked", &m2, &fl[0], &committed, &links);
         }
+        // an EXTRA sub-proof (proof of a foreign tree under a fresh or an existing key) added at the end / front / middle:
+        // the master proof does not commit to it
+        {
+            let fl = distinct_leaves(&mut rng, 3, 0);
+            let fnodes: Vec<MKTreeNode> = fl.iter().map(|l| MKTreeNode::new(l.clone())).collect();
+            let ft = MKTree::<S>::new(&fnodes).unwrap();
+            let fp = P::from_proof(&ft.compute_proof(&fnodes[0..1]).unwrap());
+            for (tag, at) in [("map-extra-sub-appended", honest.subs.len()), ("map-extra-sub-front", 0), ("map-extra-sub-middle", honest.subs.len() / 2)] {
+                for fresh_key in [true, false] {
+                    let mut m = honest.clone();
+                    let key = if fresh_key { BlockRange::from_block_number(BlockNumber(15 * (2000 + rng.below(100)))) } else { honest.subs[rng.below(honest.subs.len() as u64) as usize].0.clone() };
+                    let kb: MKTreeNode = key.clone().into();
+                    m.subs.insert(at, (key, kb.to_vec(), MP { master: fp.clone(), subs: vec![] }));
+                    run_map(&mut sink, tag, &m, &fl[0], &committed, &links);
+                }
+            }
+        }
         // sub-proofs swapped between keys / re-keyed
         if honest.subs.len() >= 2 {
             let mut m = honest.clone();
